@@ -334,6 +334,40 @@ pub fn minimise(orig: &Scenario, v: &Violation, deadline: Instant) -> (Scenario,
     let mut cur = orig.clone();
     let mut tried = 0u64;
     let alive = |d: Instant| Instant::now() < d;
+    // 0. concurrency plans (C15): drop whole tasks, then single calls, then arguments. Every
+    //    structural change alters the interleaving, so a few schedule seeds are re-searched.
+    if cur.extra.get("plan_conc").is_some() {
+        use crate::conc::{ConcPlan, WOp};
+        let get = |s: &Scenario| -> Option<ConcPlan> { serde_json::from_value(s.extra["plan_conc"].clone()).ok() };
+        let put = |s: &Scenario, p: &ConcPlan| -> Scenario { let mut c = s.clone(); c.extra["plan_conc"] = serde_json::to_value(p).unwrap(); c };
+        let mut attempt = |cur: &mut Scenario, p: ConcPlan, tried: &mut u64| -> bool { let c = put(cur, &p); if c == *cur { return false; } *tried += 1; if let Some(c) = try_scen(&c, v, 5, timeout) { *cur = c; true } else { false } };
+        if let Some(p0) = get(&cur) {
+            // tasks
+            let mut i = p0.readers.len();
+            while i > 0 && alive(deadline) { i -= 1; if let Some(mut p) = get(&cur) { if i < p.readers.len() { p.readers.remove(i); attempt(&mut cur, p, &mut tried); } } }
+            let mut i = p0.writers.len();
+            while i > 0 && alive(deadline) { i -= 1; if let Some(mut p) = get(&cur) { if i < p.writers.len() && p.writers.len() > 1 { p.writers.remove(i); attempt(&mut cur, p, &mut tried); } } }
+            // calls
+            for side in 0..2 {
+                let nt = get(&cur).map_or(0, |p| if side == 0 { p.writers.len() } else { p.readers.len() });
+                for t in 0..nt {
+                    let mut j = get(&cur).map_or(0, |p| if side == 0 { p.writers[t].len() } else { p.readers[t].len() });
+                    while j > 0 && alive(deadline) { j -= 1; if let Some(mut p) = get(&cur) { if side == 0 { if j < p.writers[t].len() { p.writers[t].remove(j); } } else if j < p.readers[t].len() { p.readers[t].remove(j); } attempt(&mut cur, p, &mut tried); } }
+                }
+            }
+            // arguments
+            if alive(deadline) { if let Some(mut p) = get(&cur) { for t in p.readers.iter_mut() { for o in t.iter_mut() { o.helpers = 0; o.hold = 0; } } for t in p.writers.iter_mut() { for o in t.iter_mut() { if let WOp::Commit { par, retries, .. } = o { *par = 0; *retries = 0; } } } attempt(&mut cur, p, &mut tried); } }
+            if alive(deadline) { if let Some(mut p) = get(&cur) { for t in p.readers.iter_mut() { for o in t.iter_mut() { o.proves.clear(); o.reads.truncate(1); } } attempt(&mut cur, p, &mut tried); } }
+            if alive(deadline) { if let Some(mut p) = get(&cur) { for t in p.writers.iter_mut() { for o in t.iter_mut() { if let WOp::Commit { writes, .. } | WOp::OverlayCommit { writes, .. } = o { writes.truncate(1); } } } attempt(&mut cur, p, &mut tried); } }
+            if alive(deadline) { if let Some(mut p) = get(&cur) { p.initial_commits = 1; attempt(&mut cur, p, &mut tried); } }
+            for f in [|s: &mut Scenario| s.opts.commit_concurrency = 1, |s: &mut Scenario| s.opts.io_workers = 1, |s: &mut Scenario| s.opts.warm_up = false, |s: &mut Scenario| s.sched = Sched::Random] {
+                if !alive(deadline) { break; }
+                let mut c = cur.clone(); f(&mut c);
+                if c != cur { tried += 1; if let Some(c) = try_scen(&c, v, 5, timeout) { cur = c; } }
+            }
+        }
+        return (cur, tried);
+    }
     // 1. cut everything after the violating step
     if let Some(st) = v.step { if st + 1 < cur.steps.len() { let mut c = cur.clone(); c.steps.truncate(st + 1); tried += 1; if let Some(c) = try_scen(&c, v, 2, timeout) { cur = c; } } }
     // 2. drop steps, last to first
@@ -405,7 +439,10 @@ fn write_replay(prop: &str, run_seed: u64, scen: &Scenario, v: &Violation, _tier
     let dir = verif_root().join("replays");
     let _ = std::fs::create_dir_all(&dir);
     let path = dir.join(format!("{prop}-{run_seed}-{:04x}.json", shape_hash(scen) & 0xffff));
+    let calls = |s: &Scenario| -> u64 { s.extra.get("plan_conc").map_or(0, |p| ["writers", "readers"].iter().map(|k| p[*k].as_array().map_or(0, |a| a.iter().map(|t| t.as_array().map_or(0, |x| x.len() as u64)).sum::<u64>())).sum()) };
+    let (calls_before, calls_after) = (calls(scen), calls(&min));
     let doc = json!({
+        "concurrent_calls": { "before": calls_before, "after": calls_after },
         "property": prop, "violation": final_v.class, "first_divergence": final_v.detail, "step": final_v.step, "run_seed": run_seed,
         "confirmed_on_rerun": confirm, "minimisation": { "candidates_tried": tried, "steps_before": scen.steps.len(), "steps_after": min.steps.len(), "faults_before": scen.faults.len(), "faults_after": min.faults.len() },
         "scenario": min,
